@@ -128,7 +128,11 @@ func (e *envT) addTime(dt *lql.DateTime, twice bool) {
 		return
 	}
 	z := int64(*dt)
-	f := time.Unix(0, z).String()
+	// the text the code prints for the time point: DateTime.String() without its quotes
+	f, err := strconv.Unquote(dt.String())
+	if err != nil {
+		f = dt.String()
+	}
 	e.fmts[z] = f
 	e.addQuote(f)
 	if twice {
@@ -660,6 +664,10 @@ func stmtCase(rp Replay) (*Case, error) {
 			cs.Oracle = &Violation{Class: cls, Detail: fmt.Sprintf("%q prints as %q, which parses to a %s statement", rp.Text, p, m2["kind"])}
 		} else if len(diff) > 0 {
 			cls := "stmt-" + kind + "-" + diff[0] + "-changed"
+			if (diff[0] == "range" || diff[0] == "before") && hasFraction(l1) {
+				// a time point with a sub-second part came back as another instant
+				cls = "stmt-time-fraction-changed"
+			}
 			cs.Oracle = &Violation{Class: cls, Detail: fmt.Sprintf("%q prints as %q; after re-parsing: %s was %s, is %s", rp.Text, p, diff[0], m1[diff[0]], m2[diff[0]])}
 		}
 	} else {
@@ -679,6 +687,18 @@ func stmtCase(rp Replay) (*Case, error) {
 	cs.Coq = GApp("KStmt", GStr(rp.Text), env.gallina(), GApp("SOk", gLql(l1), GStr(p), re))
 	cs.NonTrivial = strings.Count(p, " ") >= 6
 	return cs, nil
+}
+
+// some time point of the statement is not a whole second
+func hasFraction(l *lql.Lql) bool {
+	fr := func(dt *lql.DateTime) bool { return dt != nil && int64(*dt)%1000000000 != 0 }
+	if s := l.Select; s != nil && s.Range != nil {
+		return fr(s.Range.TmPoint1) || fr(s.Range.TmPoint2)
+	}
+	if t := l.Truncate; t != nil {
+		return fr(t.Before)
+	}
+	return false
 }
 
 func sizeOver(s *lql.Size) bool { return s != nil && uint64(*s) >= 1<<63 }
@@ -985,6 +1005,11 @@ var corpus = []Replay{
 	{Kind: "stmt", Text: " select\n"}, {Kind: "stmt", Text: `'SELECT'`}, {Kind: "stmt", Text: `"SELECT"`}, {Kind: "stmt", Text: `'SHOW'`},
 	{Kind: "stmt", Text: `TRUNCATE MINSIZE 0 MAXSIZE 9223372036854775808 MAXDBSIZE 9223372036854775809`},
 	{Kind: "stmt", Text: `TRUNCATE DRYRUN {a=b} BEFORE "1552307695000000123" MAXDBSIZE 1.5k`},
+	// time points whose fraction has trailing zeros: every time point has the same value after print and re-parse
+	{Kind: "stmt", Text: `SELECT RANGE ["2019-03-11 12:34:44.500 +0000 UTC":"2019-03-11 12:34:45.123 +0000 UTC"]`},
+	{Kind: "stmt", Text: `TRUNCATE BEFORE "2019-03-11 12:34:44.250 +0000 UTC"`},
+	{Kind: "stmt", Text: `SELECT RANGE "1552307684050000000" WHERE ts >= "2019-03-11 12:34:44.500 +0000 UTC" AND ts < '2019-03-11 12:34:44.5 +0000 UTC'`},
+	{Kind: "stmt", Text: `SELECT RANGE [:"-500000000"] LIMIT 1`}, {Kind: "stmt", Text: `TRUNCATE BEFORE "2019-03-11 12:34:44.000000001 +0000 UTC"`},
 	{Kind: "stmt", Text: `DESCRIBE PARTITION {a=b,c="d e"}`}, {Kind: "stmt", Text: `DESCRIBE PIPE p.1`}, {Kind: "stmt", Text: ` DELETE PIPE p:1/x-y`},
 	{Kind: "stmt", Text: ``}, {Kind: "expr", Text: ``}, {Kind: "source", Text: ``},
 	{Kind: "source", Text: `{a=b} OR c=d`}, {Kind: "source", Text: `{a="x,y",c=d}`}, {Kind: "source", Text: `{a="q\"uote"}`},
